@@ -5,6 +5,9 @@ From RX Require Import ConcToVec.
 From Hammer Require Import Tactics.
 Import ListNotations.
 
+Lemma option_nat_eq_dec (a b : option nat) : {a = b} + {a <> b}.
+Proof. decide equality. apply Nat.eq_dec. Qed.
+
 Definition emitted (s : tv) : list nat :=      (* what the source has pushed so far *)
   match t_sp s with SItems r => firstn (length (t_all s) - length r) (t_all s) | _ => t_all s end.
 
@@ -18,8 +21,8 @@ Record TInv (s : tv) : Prop := {
            | _ => t_err s = match t_end s with TError e => Some e | _ => None end
            end;
   ti_endk : match t_sp s with SErrSet => exists e, t_end s = TError e | SItems _ => True | _ => t_end s <> TSilent end;
-  ti_parked : t_pp s = PPParked -> t_waker s = true;
-  ti_nolost : t_pp s = PPParked -> t_token s = false -> t_done s = true -> (t_sp s = SDoneSet \/ t_sp s = SHoldR);
+  ti_parked : t_pp s = PPParked -> t_waker s = Some (t_cur s);
+  ti_nolost : t_pp s = PPParked -> t_token s <> Some (t_cur s) -> t_done s = true -> (t_sp s = SDoneSet \/ t_sp s = SHoldR);
   ti_ready : forall e l, t_pp s = PPReady e l -> t_done s = true /\ expected_result (t_all s) (t_end s) = Some (e, l) }.
 
 Lemma tinv0 items en : TInv (tv0 items en).
@@ -45,7 +48,7 @@ Proof.
            pose proof (proj1 DN eq_refl) as D'. destruct (t_sp s) eqn:SP; try (destruct D' as [D' | [D' | D']]; discriminate); rewrite ER, SF;
              unfold expected_result; destruct (t_end s); try reflexivity; exfalso; apply EK; reflexivity.
       * constructor; cbn; auto; try (intros; discriminate); try (timeout 20 sauto).
-    + destruct (t_token s) eqn:T; inversion H; subst; clear H.
+    + destruct (match t_token s with Some k => Nat.eqb k (t_cur s) | None => false end) eqn:T; inversion H; subst; clear H.
       constructor; cbn; auto; try (intros; discriminate); try (timeout 20 sauto).
     + discriminate.
   - (* source *)
@@ -71,7 +74,7 @@ Proof.
     + (* read the waker, release, wake *)
       inversion H; subst; clear H.
       constructor; cbn; auto; try (intros; discriminate).
-      all: try (intros P T; rewrite (PK P) in T; rewrite orb_true_r in T; discriminate).
+      all: try (intros P T; rewrite (PK P) in T; congruence).
       all: try (timeout 20 sauto).
     + discriminate.
   - (* spurious re-poll *)
@@ -88,7 +91,7 @@ Qed.
 Lemma tstep_static s a s' : tstep s a = Some s' -> t_all s' = t_all s /\ t_end s' = t_end s.
 Proof.
   destruct a; cbn.
-  - destruct (t_pp s); [destruct (t_lock s) | destruct (t_done s) | destruct (t_token s) |]; intros [= <-]; auto.
+  - destruct (t_pp s); [destruct (t_lock s) | destruct (t_done s) | destruct (match t_token s with Some k => Nat.eqb k (t_cur s) | None => false end) |]; intros [= <-]; auto.
   - destruct (t_sp s) as [[|x r] | | | |]; [destruct (t_end s) | | | destruct (t_lock s) | |]; intros [= <-]; auto.
   - destruct (t_pp s); intros [= <-]; auto.
 Qed.
@@ -110,12 +113,13 @@ Qed.
 (* no lost wake-up: once the source has finished, the poller is never parked without a pending token *)
 Theorem tovec_no_lost_wakeup items en acts :
   let s := trun acts (tv0 items en) in
-  t_sp s = SFin -> t_pp s = PPParked -> t_token s = true.
+  t_sp s = SFin -> t_pp s = PPParked -> t_token s = Some (t_cur s).
 Proof.
   cbn zeta. intros F P. pose proof (trun_inv acts _ (tinv0 items en)) as I.
-  destruct (t_token (trun acts (tv0 items en))) eqn:T; auto.
-  assert (D : t_done (trun acts (tv0 items en)) = true) by (apply (ti_done _ I); auto).
-  destruct (ti_nolost _ I P T D) as [X | X]; congruence.
+  set (s := trun acts (tv0 items en)) in *.
+  destruct (option_nat_eq_dec (t_token s) (Some (t_cur s))) as [E|NE]; auto.
+  assert (D : t_done s = true) by (apply (ti_done _ I); auto).
+  destruct (ti_nolost _ I P NE D) as [X | X]; congruence.
 Qed.
 
 (* ... hence the future always becomes ready: from any reachable state in which the source has finished,
@@ -135,9 +139,9 @@ Proof.
     { destruct (t_lock s) eqn:L; auto; [apply (ti_lockp _ I) in L; congruence | contradiction]. }
     cbn [trun tstep]. rewrite PP, L. cbn [trun tstep t_pp t_done]. rewrite D. cbn. eauto.
   - cbn [trun tstep]. rewrite PP, D. cbn. eauto.
-  - assert (T : t_token s = true) by (apply (tovec_no_lost_wakeup items en acts); auto).
+  - assert (T : t_token s = Some (t_cur s)) by (apply (tovec_no_lost_wakeup items en acts); auto).
     assert (L : t_lock s = LFree).
     { destruct (t_lock s) eqn:L; auto; [apply (ti_lockp _ I) in L; congruence | contradiction]. }
-    cbn [trun tstep]. rewrite PP, T. cbn [trun tstep t_pp t_lock]. rewrite L. cbn [trun tstep t_pp t_done]. rewrite D. cbn. eauto.
+    cbn [trun tstep]. rewrite PP, T, Nat.eqb_refl. cbn [trun tstep t_pp t_lock]. rewrite L. cbn [trun tstep t_pp t_done]. rewrite D. cbn. eauto.
   - cbn [trun tstep]. rewrite PP. cbn. rewrite PP. eauto.
 Qed.
